@@ -164,7 +164,7 @@ def check_case(ctx, cs):
                     ok, r = _try(ctx, "operations.tangent", tg, small, lambda: operations.tangent(obj, arg, normalize=False))
                     if ok and not (close_seq(list(r[0]), p0, 1e-8) and close_seq(list(r[1]), d1, 1e-8)):
                         ctx.violate("operations.tangent", tg, small, {"expected": [p0, d1], "got": r})
-                    ok, r = _try(ctx, "operations.tangent", tg + ["normalize"], small, lambda: operations.tangent(obj, arg, normalize=True))
+                    ok, r = _try(ctx, "operations.tangent", tg + ["normalize"], small, lambda: operations.tangent(obj, arg))      # normalised by default
                     u1 = unit(d1)
                     if ok and u1 is not None and not close_seq(list(r[1]), u1, 1e-8):
                         ctx.violate("operations.tangent", tg + ["normalize"], small, {"expected": u1, "got": r})
@@ -191,7 +191,7 @@ def check_case(ctx, cs):
                         ctx.violate("operations.normal", tg + ["param_list"], small, {"expected": [[p0, n]] * 2, "got": r})
                     un = unit(n)
                     if un is not None and math.sqrt(sum(x * x for x in n)) > 1e-6:
-                        ok, r = _try(ctx, "operations.normal", tg + ["normalize"], small, lambda: operations.normal(obj, list(prm), normalize=True))
+                        ok, r = _try(ctx, "operations.normal", tg + ["normalize"], small, lambda: operations.normal(obj, list(prm)))      # normalised by default
                         if ok:
                             v = list(r[1])
                             bad = (abs(sum(x * x for x in v) - 1.0) > 1e-9 or abs(sum(a * b for a, b in zip(v, du))) > 1e-7 * max(1, max(map(abs, du)))
